@@ -14,7 +14,13 @@ for d in sorted(glob.glob(os.path.join(V, "seeded", "*"))):
                     for c, v in checks.items())
     hist = "; ".join("%s -> %s" % (h.get("stage", ""), ", ".join("%s %s" % (k, v) for k, v in h.items() if k != "stage")) for h in m.get("history", []))
     fc = m.get("final_check")
-    final = "%s: %s (%s)" % (fc.get("check", m["property"]), "ALARM" if fc.get("exit") == 1 else fc.get("verdict"), ",".join(fc.get("monitors", [])[:3])) if fc else "-"
+    if fc:
+        final = "%s: %s (%s)" % (fc.get("check", m["property"]), "ALARM" if fc.get("exit") == 1 else fc.get("verdict"), ",".join(fc.get("monitors", [])[:3]))
+    elif checks.get(m["property"], {}).get("exit") == 1:
+        # rounds 5-9 were last evaluated with (nearly) the committed machinery: see the previous column
+        final = "%s: ALARM (as evaluated, previous column)" % m["property"]
+    else:
+        final = "-"
     note = (" — note: " + m["note"]) if m.get("note") else ""
     rows.append("| %s | %s | %s | %s | %s | %s |" % (m["seed"], m["property"], "yes" if m.get("confirmed") else "NO", m["needs"].replace("|", "/"), det + ((" — history: " + hist) if hist else "") + note, final))
 print("| seed | property | confirmed (suite passes, demo fails with / passes without) | needs, in order to manifest | quick checks run against it when it was evaluated (+ history / notes) | re-run of the property's quick check against the final machinery |")
